@@ -551,6 +551,19 @@ def r11_common_ancestor_covers_every_scope(ctx):
     ctx.floor('C07.R11', 'reachability tests in find_common_ancestor', n, 1)
 
 
+def r12_guard_and_host_are_normalised_alike(ctx):
+    ctx.rule('C07.R12', 'shared with C20.R3: a request reaches the router of a domain only if its Host header, as normalised by the GENERATED code, matches the '
+             'pattern the compiler derived from the guard: the guard side (constructor and pattern) and the generated host side apply the same classes '
+             'of normalisation. A guard lower-cased at compile time while the host is matched as sent sends `Host: Admin.company.com` to the root '
+             'fallback, or to a `{tenant}.company.com` sibling.')
+    from .c20 import r3_normalisation_agreement
+    from ..engine import Ctx
+    side = Ctx(ctx.prop, ctx.fb, ctx.tier)
+    r3_normalisation_agreement(side)
+    for ob in side.obs:
+        ctx.ob('C07.R12', ob.key, ob.ok, ob.loc, ob.detail, ob.nontrivial)
+
+
 def check(ctx):
     r1_detectors_gate(ctx)
     r2_nesting(ctx)
@@ -563,3 +576,4 @@ def check(ctx):
     r9_innermost_fallback_on_method_mismatch(ctx)
     r10_any_guard_only_on_request(ctx)
     r11_common_ancestor_covers_every_scope(ctx)
+    r12_guard_and_host_are_normalised_alike(ctx)
